@@ -1,7 +1,7 @@
 """C02 - an instance that fits an eligible up server is not left pending."""
 from mc import statex
 from mc.props import _cellprop, _masterprop
-from mc.worlds import cellcfg, cellmon, mastercfg
+from mc.worlds import cellcfg, cellmon, mastercfg, mastermon
 from mc.worlds.cellcfg import T1, T2
 
 BUDGET = {'quick': 600, 'thorough': 2400}
@@ -169,9 +169,15 @@ def _m2():
     the aggregates of racks and cell must follow."""
     cfg = mastercfg.m2()
     cfg['cellmonitors'] = [cellmon.mon_c02_aggregates]
+    cfg['monitors'] = [mastermon.mon_c02_zk]
     cfg['allow_nocycle'] = False
+    # a server that starts offering a trait nobody offered (or listed) before
+    cfg['servers']['s1']['variants'].append(
+        {'cap': ['10M', '6%', '10M'], 'partition': None,
+         'traits': ['t1', 'nosuch']})
     cfg['events'] = mastercfg.ev(
-        ('app+', 'pl'), ('app+', 't1'), ('app-', 0),
+        ('app+', 'pl'), ('app+', 't1'), ('app+', 'tx'), ('app-', 0),
+        ('srv', 's1', 2),
         ('srv', 's0', 1), ('srv', 's0', 2), ('srv', 's0', 0),
         ('srv', 's1', 1), ('srv', 's1', 0),
         ('pres-', 's0'), ('pres+', 's0', 1), ('pres+', 's0', 0),
